@@ -77,6 +77,21 @@ Theorem C06_eff_window_covers_request :
 Proof. exact eff_window_spec. Qed.
 Print Assumptions C06_eff_window_covers_request.
 
+(* Known finding F90 (not repaired): the exported state carries nothing about the receive side; the
+   resumed connection starts from an empty window, so across an export/resume the statement
+   "no payload twice" fails - witness: record 5 arrives before the export and once more after it *)
+Theorem C06_resume_forgets_window_refuted :
+  exists (W : nat) (xs ys : list N) (x : N),
+    In x (fst (run_resumed 281474976710655 W xs ys)) /\ In x (snd (run_resumed 281474976710655 W xs ys)).
+Proof. exact resume_forgets_window_refuted. Qed.
+Print Assumptions C06_resume_forgets_window_refuted.
+
+Theorem C06_resumed_each_connection_no_double :
+  forall (W : nat) (maxseq : N) (xs ys : list N), 0 < maxseq -> N.of_nat W <= maxseq ->
+    NoDup (fst (run_resumed maxseq W xs ys)) /\ NoDup (snd (run_resumed maxseq W xs ys)).
+Proof. exact resumed_each_nodup. Qed.
+Print Assumptions C06_resumed_each_connection_no_double.
+
 (* non-vacuity: a concrete run with a reordered, duplicated arrival sequence *)
 Example C06_example :
   snd (run 281474976710655 (win_init 2) [0; 3; 2; 3; 1; 2; 4]) = [0; 3; 2; 4].
